@@ -100,6 +100,9 @@ unsigned long dfh_target(void);
 int dfh_nesting(void);
 void dfh_exit(void);
 void dfh_resize(unsigned long n);
+void dfh_new2(const struct rcu_flavor_struct *flavor);
+void dfh_before2(void);
+void dfh_after2(int child);
 #endif
 
 /* ------------------------------------------------------------------ allocation interposition: naming, quarantine */
@@ -179,7 +182,7 @@ static int cnt[MAXN];			/* invocations of N[i]'s callback IN THIS PROCESS HISTOR
 static int called[MAXN];		/* call_rcu(&N[i]) has been issued */
 static struct call_rcu_data *slot[8];
 static int forked, in_child, forker = -1; static pid_t child_pid;
-static int c_ht; static unsigned long c_htmax = 8;
+static int c_ht, c_ht2; static unsigned long c_htmax = 8;
 static int regd[32];			/* driver ghost: the model thread registered itself (explicitly) */
 
 static void cb(struct rcu_head *h)
@@ -273,6 +276,10 @@ static void *runner(void *arg)
 		else if (!strcmp(K, "setthr")) set_thread_call_rcu_data(o->a < 0 ? NULL : slot[o->a]);
 		else if (!strcmp(K, "setcpu")) { if (set_cpu_call_rcu_data((int) o->a, o->b < 0 ? NULL : slot[o->b])) vrt_fail("SCENARIO set_cpu_call_rcu_data failed"); }
 		else if (!strcmp(K, "before")) { call_rcu_before_fork(); before_done = 1; }
+#ifdef FORK_HT
+		else if (!strcmp(K, "before2")) dfh_before2();
+		else if (!strcmp(K, "after2")) dfh_after2(in_child);
+#endif
 		else if (!strcmp(K, "after")) {
 			if (in_child) {
 				call_rcu_after_fork_child();
@@ -349,6 +356,7 @@ int main(int argc, char **argv)
 	if (!f) { perror("program"); return 2; }
 	while (fgets(line, sizeof line, f)) {
 		char a[16], w[8]; long x, y; int c;
+		if (!strncmp(line, "ht2", 3)) { c_ht2 = 1; continue; }
 		if (sscanf(line, "ht %lu", &c_htmax) == 1) { c_ht = 1; continue; }
 		if (sscanf(line, "thread %15s %d", a, &c) == 2) { if (np == MAXTHR) return 2; cur = &P[np++]; snprintf(cur->name, sizeof cur->name, "%s", a); cur->cpu = c; continue; }
 		if (!cur || cur->nops == MAXOPS) continue;
@@ -373,6 +381,9 @@ int main(int argc, char **argv)
 #endif
 #ifdef FORK_HT
 	if (c_ht) dfh_new(&rcu_flavor, c_htmax);
+#ifdef FORK_HT
+	if (c_ht && c_ht2) dfh_new2(&rcu_flavor);
+#endif
 #endif
 	for (int k = 0; k < np; k++) vrt_spawn(P[k].name, runner, &P[k]);
 	vrt_run(&o);
